@@ -10,6 +10,7 @@ import (
 	"io"
 	"math/rand/v2"
 	"regexp"
+	"sort"
 	"strings"
 	"time"
 
@@ -403,6 +404,21 @@ func (x *c20Exec) buildHostile(kind string, r *rand.Rand) (rq proto.Req, what st
 		var valid []byte
 		if valid, err = get(seg+"/blocks/32_32_32/0_0_0?compression=blocks", nil); err != nil {
 			return
+		}
+		// the server streams the blocks in whatever order its per-block goroutines finish: canonical order
+		// first, so that one seed always damages the same block
+		if bs := parseBlockStream(valid); len(bs) > 0 {
+			sort.Slice(bs, func(i, j int) bool {
+				a, b := bs[i].c, bs[j].c
+				if a[2] != b[2] {
+					return a[2] < b[2]
+				}
+				if a[1] != b[1] {
+					return a[1] < b[1]
+				}
+				return a[0] < b[0]
+			})
+			valid = encodeBlockStream(bs, nil)
 		}
 		body, wh := mutBlockStream(r, valid)
 		ep := "/blocks"
